@@ -185,6 +185,8 @@ impl<D: DictionaryAccess> DictBuilder<D> {
     /// Read the csv lexicon from either a file or an in-memory buffer
     pub fn read_lexicon<'a, T: AsDataSource<'a> + 'a>(&mut self, data: T) -> SudachiResult<usize> {
         let report = ReportBuilder::new(data.name()).read();
+        // new entries can contain unresolved references
+        self.resolved = false;
         let result = match data.convert() {
             DataSource::File(p) => self.lexicon.read_file(p),
             DataSource::Data(d) => self.lexicon.read_bytes(d),
